@@ -53,13 +53,15 @@ SigOf(prog, ref, run, m) == [fam |-> "panicflow", variant |-> run.variant, cause
 
 \* failing runs of one record: << [run |-> index, sig |-> ...] >> ; reference undefined (fuel) => nothing is judged
 RefDefined(ref) == ref.outcome # "no"
+\* (TLC re-evaluates a LET definition at every use but caches operator ARGUMENTS: expensive values - the reference run,
+\* the VM machine's run - are therefore passed as arguments.)
+BadRunsM(r, ref, idx, m) ==
+  [j \in 1..Len(idx) |-> [run |-> idx[j], sig |-> SigOf(r.prog, ref, r.runs[idx[j]], m),
+                          ref |-> [out |-> ref.out, outcome |-> ref.outcome, val |-> ref.val,
+                                   chain |-> [i \in 1..Len(ref.chain) |-> [v |-> ref.chain[i].v, rec |-> ref.chain[i].rec]]]]]
 BadRuns(r, ref) ==
   IF ~RefDefined(ref) THEN <<>>
-  ELSE LET idx == SelectSeq([i \in 1..Len(r.runs) |-> i], LAMBDA i : ~RunOK(r.prog, ref, r.runs[i]))
-           m == VRun(r.prog, VInit, Fuel)
-       IN [j \in 1..Len(idx) |-> [run |-> idx[j], sig |-> SigOf(r.prog, ref, r.runs[idx[j]], m),
-                                   ref |-> [out |-> ref.out, outcome |-> ref.outcome, val |-> ref.val,
-                                            chain |-> [i \in 1..Len(ref.chain) |-> [v |-> ref.chain[i].v, rec |-> ref.chain[i].rec]]]]]
+  ELSE BadRunsM(r, ref, SelectSeq([i \in 1..Len(r.runs) |-> i], LAMBDA i : ~RunOK(r.prog, ref, r.runs[i])), VRun(r.prog, VInit, Fuel))
 
 (* ---- record walk.  `bad` keeps at most PerSig entries per distinct signature (so a frequent known cause cannot
         crowd out a rare one), `cnt` counts all of them ---- *)
@@ -76,9 +78,11 @@ AddAll(b, c, es, i, k) ==           \* returns <<bad, cnt>>
   ELSE LET e == es[i] IN
        AddAll(IF CountOf(c, e.sig) < PerSig THEN Append(b, [k |-> k, id |-> Obs[k].id, run |-> e.run, sig |-> e.sig, ref |-> e.ref]) ELSE b,
               Bump(c, e.sig), es, i + 1, k)
-Next == /\ l <= Len(Obs) /\ l' = l + 1
-        /\ LET ref == RefObs(Obs[l].prog)  es == BadRuns(Obs[l], ref)  res == AddAll(bad, cnt, es, 1, l) IN
-             bad' = res[1] /\ cnt' = res[2] /\ undef' = undef + (IF RefDefined(ref) THEN 0 ELSE 1)
+Judge3(res, ref) == bad' = res[1] /\ cnt' = res[2] /\ undef' = undef + (IF RefDefined(ref) THEN 0 ELSE 1)
+Judge2(es, ref) == IF es = <<>> THEN bad' = bad /\ cnt' = cnt /\ undef' = undef + (IF RefDefined(ref) THEN 0 ELSE 1)
+                   ELSE Judge3(AddAll(bad, cnt, es, 1, l), ref)
+Judge1(ref) == Judge2(BadRuns(Obs[l], ref), ref)
+Next == l <= Len(Obs) /\ l' = l + 1 /\ Judge1(RefObs(Obs[l].prog))
 Done == l = Len(Obs) + 1 =>
           /\ ndJsonSerialize("bad.ndjson", bad)
           /\ ndJsonSerialize("stats.ndjson", <<[ref_undefined |-> undef, records |-> Len(Obs), counts |-> cnt]>>)
